@@ -97,7 +97,7 @@ class Integer32Type(BaseDataType):
     
 
     def parser_data(self, data):
-        if len(data) != 4:
+        if not isinstance(data, bytes) or len(data) != 4:
             raise DataTypeError("Integer32Type MUST have data argument "\
                                 "of 'bytes' with 32-bit signed value")
 
